@@ -22,3 +22,58 @@ def validate(module, cfg, traces, scratch, *, timeout=3600, tag="tr"):
     if not rejected and r.exit != 0:
         raise MachineryError("%s: TLC exit %s without REJECT lines\n%s" % (module, r.exit, r.out[-1500:]))
     return rejected, r
+
+
+def validate_literal(module, cfg, base, defs, traces, scratch, *, timeout=3600, tag="run"):
+    """Code -> spec validation with the traces passed as a TLA+ literal: the module `<module>Data` is generated in a scratch directory
+    (EXTENDS `base` for the model values, defines TraceDataDef plus the constants in `defs`: name -> TLA+ text) and found by
+    /verif/spec/<module>.tla through the TLA-Library path. Returns (rejected: 0-based trace index -> furthest line, diagnostics: list of
+    parsed PrintT tuples, TlcResult)."""
+    from . import tlaval
+    d = scratch.sub("lit_%s_%s" % (module, tag))
+    with open(os.path.join(d, module + "Data.tla"), "w") as f:
+        f.write("---- MODULE %sData ----\nEXTENDS %s\n" % (module, base))
+        for k, v in defs.items():
+            f.write("%s == %s\n" % (k, v))
+        f.write("TraceDataDef == <<\n" + ",\n".join(tlaval.to_tla(t) for t in traces) + "\n>>\n====\n")
+    r = tlc.run(module, cfg, scratch, workers=1, timeout=timeout, library=d)
+    if r.error and "REJECT" not in r.out:
+        raise MachineryError("%s: TLC failed\n%s" % (module, r.error))
+    if r.violated and r.violated != "Deadlock":
+        raise MachineryError("%s: invariant %s violated while validating traces\n%s" % (module, r.violated, r.out[-1500:]))
+    rejected = {}
+    for m in re.finditer(r'<<"REJECT", (\d+), (\d+)>>', r.out):
+        rejected[int(m.group(1)) - 1] = int(m.group(2))
+    if not rejected and r.exit != 0:
+        raise MachineryError("%s: TLC exit %s without REJECT lines\n%s" % (module, r.exit, r.out[-1500:]))
+    diags = []
+    for m in re.finditer(r'^<<\s*"(MISMATCH|NOTENABLED)".*(?:\n[ \t]+.*)*', r.out, flags=re.M):
+        txt = m.group(0).strip()
+        try:
+            diags.append(tlaval.parse(txt))
+        except Exception:
+            diags.append((m.group(1), txt))
+    return rejected, diags, r
+
+
+def validate_literal_parallel(module, cfg, base, defs, traces, scratch, *, chunks=8, timeout=3600, tag="run"):
+    """validate_literal over `chunks` TLC processes (the TLCSet registers need one worker per process). Indices are those of `traces`."""
+    from concurrent.futures import ThreadPoolExecutor
+    n = max(1, min(chunks, len(traces)))
+    parts = [list(range(i, len(traces), n)) for i in range(n)]
+    def one(k):
+        return validate_literal(module, cfg, base, defs, [traces[i] for i in parts[k]], scratch, timeout=timeout, tag="%s%d" % (tag, k))
+    with ThreadPoolExecutor(n) as ex:
+        results = list(ex.map(one, range(n)))
+    rejected, diags, runs = {}, [], []
+    for k, (rej, dg, r) in enumerate(results):
+        for i, line in rej.items():
+            rejected[parts[k][i]] = line
+        for x in dg:
+            if isinstance(x, tuple) and len(x) > 2 and isinstance(x[1], int):
+                x = (x[0], parts[k][x[1] - 1] + 1) + tuple(x[2:])
+            diags.append(x)
+        runs.append(r)
+    total = tlc.TlcResult()
+    total.generated, total.distinct, total.wall = sum(r.generated for r in runs), sum(r.distinct for r in runs), max(r.wall for r in runs)
+    return rejected, diags, total
